@@ -256,3 +256,131 @@ std_stubs! { #[kani::unwind(8)] pub(crate) fn a_class_range_first_n2() { a_class
 //@ bound: program CharClass('.') with initial_char_class and minimum_length set; input <= 3 chars, all scalar values; start 0..=len
 //@ encodes: ReMatcher::matches(first-character-filter,minimum-length) ReMatcher::match_at CharClass::matches_iter
 std_stubs! { #[kani::unwind(8)] pub(crate) fn a_class_dot_first_n3() { a_class::<3>(0, true) } }
+
+// ------------------------------------- one-character class == literal (C20)
+//@ harness: a_class_single_n2
+//@ props: C20 C01
+//@ tier: quick
+//@ cost: 80
+//@ bound: program CharClass({c}) (static list [c,c+1)), c any scalar value: same matches/spans as the literal c (oracle of a_atom1); input <= 2 chars over all scalar values; start 0..=len
+//@ encodes: ReMatcher::matches ReMatcher::match_at CharClass::matches_iter CharacterClass::contains
+std_stubs! {
+    #[kani::unwind(8)]
+    pub(crate) fn a_class_single_n2() {
+        let c: char = kani::any();
+        let lo = c as u32;
+        let p = bare(Operation::from(CharClass::new(static_class(&[lo, lo + 1]))), flags(""));
+        let mut m = ReMatcher::new(&p, "");
+        let (v, len) = sym_input::<2>();
+        m.search = v;
+        let start: usize = kani::any();
+        kani::assume(start <= len);
+        let want = leftmost::<2, _>(start, len, |j| if j < len && m.search[j] == c { Some(j + 1) } else { None });
+        kani::cover!(want.is_some(), "match exists");
+        kani::cover!(want.is_none() && len == 2, "no match in a full-length input");
+        let r = compare_search(&mut m, start, want);
+        kani::assert(r.found_ok && r.start_ok && r.end_ok, "C20.one-char-class-equals-literal");
+        std::mem::forget(m);
+        std::mem::forget(p);
+    }
+}
+
+// ------------------- prefix scan where the prefix is a PROPER prefix (C08, C02)
+// Models Sequence[Atom(prefix), rest]: every match starts with the prefix but a
+// prefix occurrence need not be a match; self-overlapping prefixes included.
+fn a_atom3_prefix2<const N: usize>(ci: bool) {
+    let c1: char = kani::any();
+    let c2: char = kani::any();
+    let c3: char = kani::any();
+    let mut p = bare(Operation::from(Atom::new(vec![c1, c2, c3])), if ci { flags("i") } else { flags("") });
+    p.prefix = Some(vec![c1, c2]);
+    p.minimum_length = 3;
+    let mut m = ReMatcher::new(&p, "");
+    let (v, len) = sym_input::<N>();
+    m.search = v;
+    let start: usize = kani::any();
+    kani::assume(start <= len);
+    let eq = |a: char, b: char| if ci { model_eq_ci(a, b) } else { a == b };
+    let want = leftmost::<N, _>(start, len, |j| {
+        if j + 3 <= len && eq(m.search[j], c1) && eq(m.search[j + 1], c2) && eq(m.search[j + 2], c3) {
+            Some(j + 3)
+        } else {
+            None
+        }
+    });
+    kani::cover!(matches!(want, Some((1, _))) && start == 0 && eq(m.search[0], c1) && eq(m.search[1], c2),
+        "prefix occurs at 0 without a match there, match at 1 overlaps it");
+    kani::cover!(want.is_none() && len == N, "no match in a full-length input");
+    let r = compare_search(&mut m, start, want);
+    kani::assert(r.found_ok, "C08.prefix-scan.found");
+    kani::assert(r.start_ok, "C02.prefix-scan.leftmost-start");
+    kani::assert(r.end_ok, "C02.prefix-scan.end");
+    std::mem::forget(m);
+    std::mem::forget(p);
+}
+
+//@ harness: a_atom3_prefix2_n4
+//@ props: C08 C02 C01
+//@ tier: thorough
+//@ mem: 30
+//@ timeout: 3000
+//@ cost: 3000
+//@ bound: program Atom[c1,c2,c3] with prefix=[c1,c2] (a proper, possibly self-overlapping prefix), minimum_length=3; all scalar values; input <= 4 chars; start 0..=len
+//@ encodes: ReMatcher::matches(prefix-scan,minimum-length) ReMatcher::match_at Atom::matches_iter
+std_stubs! { #[kani::unwind(7)] pub(crate) fn a_atom3_prefix2_n4() { a_atom3_prefix2::<4>(false) } }
+
+//@ harness: a_atom3_prefix2_i_n4
+//@ props: C08 C11
+//@ tier: thorough
+//@ mem: 30
+//@ timeout: 3000
+//@ cost: 3000
+//@ bound: program Atom[c1,c2,c3] with prefix=[c1,c2], flag i (case mapping = arithmetic model); input <= 4 chars; start 0..=len
+//@ encodes: ReMatcher::matches(case-blind-prefix-scan) ReMatcher::match_at Atom::matches_iter ReMatcher::equal_case_blind
+std_stubs! { #[kani::unwind(7)] pub(crate) fn a_atom3_prefix2_i_n4() { a_atom3_prefix2::<4>(true) } }
+
+// ----------------------------------------- start-anchor fast path (C08, C12)
+fn a_bol_hasbol<const N: usize>(multi: bool) {
+    let mut p = bare(Operation::from(Bol), if multi { flags("m") } else { flags("") });
+    p.optimization_flags = OPT_HASBOL;
+    let mut m = ReMatcher::new(&p, "");
+    let (v, len) = sym_input::<N>();
+    m.search = v;
+    let start: usize = kani::any();
+    kani::assume(start <= len);
+    let want = leftmost::<N, _>(start, len, |j| {
+        if j == 0 || (multi && j < len && m.search[j - 1] == '\n') { Some(j) } else { None }
+    });
+    kani::cover!(!multi || matches!(want, Some((s, _)) if s > start), "line start found after the search start (flag m)");
+    kani::cover!(want.is_none() && len > 0 && m.search[len - 1] == '\n' || !multi, "only a final newline follows: no match");
+    kani::cover!(want.is_none(), "no match");
+    let r = compare_search(&mut m, start, want);
+    kani::assert(r.found_ok, "C12.hasbol.found");
+    kani::assert(r.start_ok && r.end_ok, "C12.hasbol.position");
+    std::mem::forget(m);
+    std::mem::forget(p);
+}
+
+//@ harness: a_bol_hasbol_m_n3
+//@ props: C12 C08
+//@ tier: thorough
+//@ cost: 900
+//@ bound: program Bol with OPT_HASBOL, flag m (start-anchor fast path with newline seeking); input <= 3 chars over all scalar values; start 0..=len
+//@ encodes: ReMatcher::matches(OPT_HASBOL-path,line-seeking) ReMatcher::match_at Bol::matches_iter
+std_stubs! { #[kani::unwind(7)] pub(crate) fn a_bol_hasbol_m_n3() { a_bol_hasbol::<3>(true) } }
+
+//@ harness: a_bol_hasbol_m_n2
+//@ props: C12 C08
+//@ tier: quick
+//@ cost: 200
+//@ bound: program Bol with OPT_HASBOL, flag m (start-anchor fast path with newline seeking); input <= 2 chars over all scalar values; start 0..=len
+//@ encodes: ReMatcher::matches(OPT_HASBOL-path,line-seeking) ReMatcher::match_at Bol::matches_iter
+std_stubs! { #[kani::unwind(6)] pub(crate) fn a_bol_hasbol_m_n2() { a_bol_hasbol::<2>(true) } }
+
+//@ harness: a_bol_hasbol_n3
+//@ props: C12 C08
+//@ tier: quick
+//@ cost: 100
+//@ bound: program Bol with OPT_HASBOL, no flag m; input <= 3 chars over all scalar values; start 0..=len
+//@ encodes: ReMatcher::matches(OPT_HASBOL-path) ReMatcher::match_at Bol::matches_iter
+std_stubs! { #[kani::unwind(7)] pub(crate) fn a_bol_hasbol_n3() { a_bol_hasbol::<3>(false) } }
